@@ -364,8 +364,8 @@ func childFree(o *output) {
 	go func() { defer bg.Done(); calcWorkers(o, &stop, 4) }()
 	var fg sync.WaitGroup
 	fg.Add(2)
-	go func() { defer fg.Done(); registryRounds(o, ev.Pick(5000, 30000), 8) }()
-	go func() { defer fg.Done(); freePipelines(o, ev.Pick(250, 2500), 8, ev.Seed()*104729+5) }()
+	go func() { defer fg.Done(); registryRounds(o, ev.Pick(5000, 60000), 8) }()
+	go func() { defer fg.Done(); freePipelines(o, ev.Pick(250, 6000), 8, ev.Seed()*104729+5) }()
 	fg.Wait()
 	stop.Store(true)
 	bg.Wait()
